@@ -733,13 +733,20 @@ fn acked_bytes_at(l: &RunLog, from_a: bool, seq_end: &std::collections::BTreeMap
 /// C03. `abort_t_us`: virtual time at which the abort (cut / reset / cancel) took effect, if any;
 /// `bound_us`: time after the abort within which every call has to resolve.
 pub fn honest_completion(scn: &Scenario, l: &RunLog) -> Vec<Finding> {
+    honest_completion_hit(scn, l, &[])
+}
+
+/// `hit`: the sides whose own connection was aborted locally (a RESET delivered to it, its socket
+/// cancelled). Such a side's application cannot "keep reading", and what it had accepted but not yet
+/// transmitted when it was aborted is not owed to the peer's reader.
+pub fn honest_completion_hit(scn: &Scenario, l: &RunLog, hit: &[Side]) -> Vec<Finding> {
     let mut v = vec![];
     for side in [Side::A, Side::B] {
         let from_a = side == Side::A;
         let seq_end = seq_end_map(l, from_a);
         let peer = other(side);
         let peer_script = if side == Side::A { &scn.app_b } else { &scn.app_a };
-        let peer_keeps_reading = reads_to_eof(peer_script);
+        let peer_keeps_reading = reads_to_eof(peer_script) && !hit.contains(&peer);
         let peer_read_total = l.read[idx(peer)];
         let mut acc = 0u64;
         let mut at_call = 0u64;
@@ -808,7 +815,7 @@ pub fn honest_completion(scn: &Scenario, l: &RunLog) -> Vec<Finding> {
                     let my_fin_first = l.wire.iter().any(|w| w.from_a == from_a && w.ptype == 1 && !w.injected && w.k < fw.k);
                     if let Some(tc) = peer_close_t {
                         let accepted_before_close: u64 = l.app.iter().filter(|e| e.side == peer && e.t_us <= tc).map(|e| if let AppEv::WriteAccepted { n, .. } = e.ev { n as u64 } else { 0 }).sum();
-                        if !peer_write_err && !my_fin_first && at < accepted_before_close {
+                        if !peer_write_err && !my_fin_first && at < accepted_before_close && !hit.contains(&peer) {
                             v.push(f(
                                 "C03",
                                 "eof",
